@@ -86,7 +86,7 @@ def run(tier):
             return -999, "", "skipped after two timeouts"
         try:
             e2 = dict(env, THREADS_BIG_EXT_ONLY="1") if fl == "tsan" else env
-            r = subprocess.run([binary, pf if fl == "tsan" else pfg, str(T), str(iters), str(seed), str(stag)] + extra, capture_output=True, text=True, env=e2, timeout=300, errors="replace")
+            r = subprocess.run([binary, pf if fl == "tsan" else pfg, str(T), str(iters), str(seed), str(stag)] + extra, capture_output=True, text=True, env=e2, timeout=max(300, 0.04 * (job[6] if len(job) > 6 else 0)), errors="replace")  # (about 10 ms per cold-start trial)
             return r.returncode, r.stdout, r.stderr
         except subprocess.TimeoutExpired:
             timeouts[0] += 1
